@@ -59,11 +59,11 @@ func def(id string, d *propertyDef) {
 
 func init() {
 	def("C01", &propertyDef{
-		Decides:    "in code reachable from the load entry points: (1) every unchecked type assertion, index and slice expression is proved safe, justified, or a listed finding (PANIC-TA, PANIC-IDX, PANIC-EXPL, lemma TAB-L1); (2) every recursive call cycle is a structural descent on a YAML tree or has a checked guard, every condition-less loop is inventoried (TERM, CYC); (3) the cycle guards for extends, include, aliases and depends_on are present, dominate the recursion they protect and return errors (CYC); (4) errors from reading referenced files are propagated (ERR); (5) every return of the load chain is project-xor-error (XOR); (6) each pipeline stage propagates its error and schema validation is wired after every merged document unless SkipValidation (PIPE).",
-		NotDecided: "termination and stack bounds themselves (TERM inventories arguments); nil-map writes and nil dereferences; panics inside dependencies; that an error names the missing file; recursion through function values (template substitution) is not in the static call cycles.",
-		Rules:      []string{"PANIC-TA", "PANIC-IDX", "PANIC-EXPL", "TAB-L1", "TERM", "CYC", "ERR", "XOR", "PIPE"},
+		Decides:    "in code reachable from the load entry points: (1) every unchecked type assertion, index and slice expression is proved safe, justified, or a listed finding (PANIC-TA, PANIC-IDX, PANIC-EXPL, lemma TAB-L1), and no function that assigns into a map parameter is handed a map that can be nil (NILMAP); (2) every recursive call cycle is a structural descent on a YAML tree or has a checked guard, every condition-less loop is inventoried (TERM, CYC); (3) the cycle guards for extends, include, aliases and depends_on are present, dominate the recursion they protect and return errors (CYC); (4) errors from reading referenced files are propagated (ERR); (5) every return of the load chain is project-xor-error (XOR); (6) each pipeline stage propagates its error and schema validation is wired after every merged document unless SkipValidation (PIPE).",
+		NotDecided: "termination and stack bounds themselves (TERM inventories arguments); nil dereferences and nil-map writes other than through map parameters; panics inside dependencies; that an error names the missing file; recursion through function values (template substitution) is not in the static call cycles.",
+		Rules:      []string{"PANIC-TA", "PANIC-IDX", "PANIC-EXPL", "NILMAP", "TAB-L1", "TERM", "CYC", "ERR", "XOR", "PIPE"},
 		Run: func(c *rules.Ctx) []report.Obligation {
-			return cat(c.PanicTA("PANIC-TA", "LOAD"), c.PanicIDX("PANIC-IDX", "LOAD"), c.PanicExpl("PANIC-EXPL", "LOAD"), c.TabL1("TAB-L1"),
+			return cat(c.PanicTA("PANIC-TA", "LOAD"), c.PanicIDX("PANIC-IDX", "LOAD"), c.PanicExpl("PANIC-EXPL", "LOAD"), c.NILMAP("NILMAP", "LOAD"), c.TabL1("TAB-L1"),
 				c.TERM("TERM", "LOAD"), c.CYC("CYC"), c.ERR("ERR", "LOAD"), c.XOR("XOR"), c.PIPE("PIPE", nil))
 		},
 	})
